@@ -328,7 +328,7 @@ def ncomp_rewritten(ctx, rule='C05-R7'):
         col = t[3] if tag(t) == 'cell' else (t[2] if tag(t) == 'col' else None)
         return T.root(t) == ('attr', ('p', 'self'), '_groups') and col in ('ncomp', C('ncomp'))
     stores = [e for e in evs if is_ncomp_store(e) and e.loops]
-    ctx.floor(rule, 'stores of the ncomp cell in the per-group loop', len(stores), 2)
+    ctx.floor(rule, 'stores of the ncomp cell in the per-group loop', len(stores), 1)
     if not stores:
         ctx.violation(rule, q, f.node.name, f.loc(), 'find_layers never writes the ncomp cell of a group inside its loop',
                       instance='find_layers: ncomp written for every group visited')
